@@ -224,6 +224,7 @@ func (n *Tree[V]) delNode(path string, matcher ValueMatcher[V], inStaticToken bo
 
 		if newSize == 0 {
 			n.backtrackingEnabled = true
+			n.wildcardKeys = nil
 		}
 
 		return oldSize != newSize
